@@ -1323,10 +1323,23 @@ where
 				debug!("Kernel Retrieved: {:?}", k);
 				wallet_lock!(wallet_inst, w);
 				let mut batch = w.batch(keychain_mask)?;
-				tx.confirmed = true;
-				tx.update_confirmation_ts();
-				batch.save_tx_log_entry(tx.clone(), &parent_key_id)?;
-				batch.commit()?;
+				// `tx` was read before the wallet lock was released: the entry may
+				// have been cancelled or updated since, so confirm the stored entry
+				// (if it is still the same outstanding transaction), not our copy
+				let current = batch
+					.tx_log_iter()
+					.find(|t| t.id == tx.id && t.parent_key_id == tx.parent_key_id);
+				if let Some(mut cur) = current {
+					if cur.tx_type == tx.tx_type
+						&& !cur.confirmed && cur.kernel_excess == tx.kernel_excess
+					{
+						cur.confirmed = true;
+						cur.update_confirmation_ts();
+						*tx = cur.clone();
+						batch.save_tx_log_entry(cur, &parent_key_id)?;
+						batch.commit()?;
+					}
+				}
 			}
 		} else {
 			warn!("Attempted to update via kernel excess for transaction {:?}, but kernel excess was not stored", tx.tx_slate_id);
